@@ -1,7 +1,7 @@
 """C41 - known-hosts lookup, save and reload agree; loading is idempotent.
 
 bfs: for every known_hosts file of a small line alphabet, breadth-first search over histories of
-load / add / delete / set / save+reload events on a real HostKeys object (prefix replay), every reached
+load / add / delete / set / save / save+reload events on a real HostKeys object (prefix replay), every reached
 state compared with vmc/refs/knownhosts.py and with itself after save+reload / after loading again.
 """
 import os
@@ -22,9 +22,11 @@ META = {
             "(plain, multi-host, hashed, hashed name at each position of a multi-name line (plain+hashed, "
             "hashed+plain, hashed+hashed, hashed in the middle of three), same-type other key, other type, [host]:port, comment, blank, malformed, "
             "unknown type) x every history of <=2 events (thorough: <=3 on the <=2-line files) out of load again, "
-            "add, delete, set via per-host view, save+reload after the first load: lookup()/check() equal the "
-            "reference for 4 names x 3 keys, save+reload preserves lookups, loading the same file again changes "
-            "neither lookups, key lists nor saved text.",
+            "add, delete, set via per-host view, save+reload (into a fresh object), save (dimension 'save as an "
+            "event of the history': the same object is saved and lives on, so saves interleave with replacing / "
+            "new add, set, delete, load and further saves) after the first load: lookup()/check() equal the "
+            "reference for 4 names x 3 keys, in EVERY reached state the table saved now and reloaded gives the "
+            "in-memory lookups, loading the same file again changes neither lookups, key lists nor saved text.",
     "note": "states whose saved text differs from the reference table (only reachable through a reported defect) "
             "are checked but not expanded; entries with key None (HostKeys.__setitem__ with an empty dict) and "
             "undecodable base64 are outside the space",
@@ -73,7 +75,7 @@ LINES = {
 }
 LINE_NAMES = list(LINES)
 
-EVENTS = ([["load"], ["savereload"]]
+EVENTS = ([["load"], ["savereload"], ["save"]]
           + [["add", h, k] for h in ("h1", "h3") for k in ("K1", "K2", "E1")]
           + [["add", "#h2", "K1"]]
           + [["del", "h1"], ["del", "h2"]]
@@ -94,6 +96,7 @@ class State:
         self.before = None        # observation taken before the last event if that was a pure reload
         self.error = None         # (op, exception) raised by paramiko in the last event
         self.loads = 0
+        self.rendered = []        # entry objects that were written out by a "save" event on this very object
 
 
 def observe(st):
@@ -132,6 +135,12 @@ def apply(st, ev, last):
             text = ref.save_text()
             st.ref = R.Table(KNOWN_TYPES)
             st.ref.load_text(text)
+            st.rendered = []
+        elif op == "save":
+            # save as an event of the history: the object lives on, whatever it remembered while writing the
+            # file stays with it (the ordinary known_hosts life cycle: load, save, add, save, ...)
+            hk.save(os.path.join(st.tmp, "saved-in-place"))
+            st.rendered = list(hk._entries)
         elif op == "add":
             st.pure = False
             k = KEYS[ev[2]]
@@ -175,7 +184,10 @@ def enabled(st, hist):
 
 
 def canon(st):
-    ents = tuple((tuple(e.hostnames), e.key.get_name(), e.key.get_base64()) for e in st.hk._entries)
+    # + per entry: has this entry object been written out by a "save" event?  A save must not change any
+    # later behaviour - which is exactly what is explored, so states before / after a save are kept apart.
+    ents = tuple((tuple(e.hostnames), e.key.get_name(), e.key.get_base64(), any(e is r for r in st.rendered))
+                 for e in st.hk._entries)
     return (ents, st.pure)
 
 
@@ -205,6 +217,30 @@ def reload_cause(file_text, before, after, ref_before):
     if not causes:
         causes.add("other")
     return sorted(causes)
+
+
+def reload_lookups(path):
+    hk2 = HostKeys(path)
+    out = {}
+    for h in UNIVERSE:
+        sub = hk2.lookup(h)
+        out[h] = None if sub is None else {t: sub[t].get_base64() for t in sub.keys()}
+    return out
+
+
+def only_after_save(st, file_text, full_hist):
+    """minimal input class of a save/reload disagreement: does it vanish when the earlier "save" events are
+    taken out of the history (same object otherwise)?"""
+    if not any(e[0] == "save" for e in full_hist):
+        return False
+    try:
+        st2 = make_build(st.tmp, file_text)([e for e in full_hist if e[0] != "save"])
+        if st2.error:
+            return False
+        obs2 = observe(st2)
+        return reload_lookups(os.path.join(st.tmp, "obs")) == obs2["lookup"]
+    except Exception:   # noqa - classification only
+        return False
 
 
 def judge(file_names, file_text, hist, ev, st, acc):
@@ -246,11 +282,14 @@ def judge(file_names, file_text, hist, ev, st, acc):
     p = os.path.join(st.tmp, "obs")
     try:
         hk2 = HostKeys(p)          # "obs" holds the text just saved by observe()
+        cls = None
         for h in UNIVERSE:
             sub = hk2.lookup(h)
             got2 = None if sub is None else {t: sub[t].get_base64() for t in sub.keys()}
             if got2 != obs["lookup"][h]:
-                acc.violation("save-reload-changes-lookup", {"file": file_names, "history": hist + [ev], "name": h,
+                if cls is None:
+                    cls = ":only-after-earlier-save-on-same-object" if only_after_save(st, file_text, hist + [ev]) else ""
+                acc.violation("save-reload-changes-lookup" + cls, {"file": file_names, "history": hist + [ev], "name": h,
                                                              "before": obs["lookup"][h], "after": got2,
                                                              "saved": obs["saved"]}, rep)
                 ok = False
@@ -332,12 +371,16 @@ def main(tier):
         PID, tier, "model_checking",
         "state = HostKeys entry list reached by a history on one file; every transition executes the real "
         "HostKeys and is compared with the reference (4 names x lookup/keys()/check with 3 keys, save+reload, "
-        "idempotent re-load); distinct_nontrivial = distinct (file, reference table reached, last event) with a "
+        "idempotent re-load); event alphabet includes save on the same object (dimension: save as an event "
+        "that can occur several times in a history, interleaved with add/set/delete/load; every state is saved "
+        "and reloaded by the oracle); distinct_nontrivial = distinct (file, reference table reached, last event) with a "
         "non-empty table",
         ["keys: 2 RSA + 1 Ed25519 from fixtures/keys; hashed names use a VERIF_SEED-derived salt",
          "mutators (add / del / per-host set) follow the implementation's documented behaviour in the reference; "
          "the property is judged on lookups, check(), save+reload and re-load only",
-         "states merge on (entry list, only-loads-so-far flag): HostKeys behaviour depends on _entries only"])
+         "states merge on (entry list with a per-entry 'already written out by a save event on this object' mark, "
+         "only-loads-so-far flag): HostKeys behaviour depends on _entries only; the mark keeps histories with an "
+         "earlier save apart so that anything remembered from a save is exercised by the following events"])
     items = []
     nfiles = {}
     for lo, hi, depth in bounds(tier):
